@@ -633,28 +633,28 @@ class ProxyKmipClient(object):
 
         # TODO (peter-hamilton) Unify attribute handling across operations
         attributes = []
-        if kwargs.get('activation_date'):
+        if kwargs.get('activation_date') is not None:
             attributes.append(
                 self.attribute_factory.create_attribute(
                     enums.AttributeType.ACTIVATION_DATE,
                     kwargs.get('activation_date')
                 )
             )
-        if kwargs.get('process_start_date'):
+        if kwargs.get('process_start_date') is not None:
             attributes.append(
                 self.attribute_factory.create_attribute(
                     enums.AttributeType.PROCESS_START_DATE,
                     kwargs.get('process_start_date')
                 )
             )
-        if kwargs.get('protect_stop_date'):
+        if kwargs.get('protect_stop_date') is not None:
             attributes.append(
                 self.attribute_factory.create_attribute(
                     enums.AttributeType.PROTECT_STOP_DATE,
                     kwargs.get('protect_stop_date')
                 )
             )
-        if kwargs.get('deactivation_date'):
+        if kwargs.get('deactivation_date') is not None:
             attributes.append(
                 self.attribute_factory.create_attribute(
                     enums.AttributeType.DEACTIVATION_DATE,
